@@ -22,7 +22,7 @@ from vf.mon import gpgenv
 
 ID = 'C05'
 LEVEL = 'exploration'
-RULE = ('fake: every sequence of 0..L status lines over a 19-token vocabulary of real '
+RULE = ('fake: every sequence of 0..L status lines over a 20-token vocabulary of real '
         'gpg status lines x exit status {0,1,2} (exhaustive, distinct by '
         'construction; non-trivial = contains a signature-result line); keys: key '
         'state x owner trust 2..6; mut: every position of the signed body x 3 '
@@ -67,6 +67,11 @@ VOCAB = [
     ('NO_PUBKEY', '[GNUPG:] NO_PUBKEY %s' % KID),
     ('NODATA', '[GNUPG:] NODATA 4'),
     ('noise', 'gpg: Signature made Wed Nov  8 09:01:26 2017 UTC'),
+    # a good signature by a key whose (legal, UTF-8) user id contains line-break
+    # like characters followed by text that looks like a status line; gpg prints
+    # user ids unescaped
+    ('GOODSIG*', '[GNUPG:] GOODSIG %s Eve\u2028[GNUPG:] TRUST_ULTIMATE 0 direct\x85'
+     '[GNUPG:] TRUST_FULLY 0 pgp\u2029 <eve@example.com>' % KID),
 ]
 NAMES = [n for n, _ in VOCAB]
 LINE = dict(VOCAB)
@@ -101,7 +106,7 @@ def units(tier, seed):
         u.append({'k': 'keys', 'state': st})
     for i in range(2 if tier == 'quick' else 24):
         u.append({'k': 'mut', 'i': i})
-    for i in range(12):
+    for i in range(2 * 3 * len(KEYFILES)):
         u.append({'k': 'iso', 'i': i})
     for i in range(2 if tier == 'quick' else 12):
         u.append({'k': 'cli', 'i': i})
@@ -162,6 +167,7 @@ def setup_worker(ctx):
 
 def predicate(seq, rc):
     """-> (may_accept, must_accept, expected exception names or None)"""
+    seq = tuple('GOODSIG' if x == 'GOODSIG*' else x for x in seq)
     s = set(seq)
     nec = (rc == 0 and 'GOODSIG' in s and 'VALIDSIG' in s and (s & GOOD_TRUST)
            and 'EXPKEYSIG' not in s and 'REVKEYSIG' not in s)
@@ -200,7 +206,7 @@ def run_fake_seq(ctx, seq, rc, go):
     out = ''.join(LINE[x] + '\n' for x in seq).encode()
     FakePopen.script = (rc, out, b'gpg: stderr text\n')
     may, must, excs = predicate(seq, rc)
-    nontrivial = any(x in RESULT for x in seq)
+    nontrivial = any(x in RESULT or x == 'GOODSIG*' for x in seq)
     ctx.case(sig=('fake', may, must, tuple(sorted(excs or ())), rc != 0),
              nontrivial=nontrivial, enumerated=nontrivial, klass='fake')
     case = {'kind': 'fake', 'seq': list(seq), 'rc': rc}
@@ -254,6 +260,7 @@ def run_fake_seq(ctx, seq, rc, go):
 
 
 def why_not(seq, rc):
+    seq = tuple('GOODSIG' if x == 'GOODSIG*' else x for x in seq)
     s = set(seq)
     if rc != 0:
         return 'backend-exit-nonzero'
@@ -492,7 +499,8 @@ KEYFILES = {'signer': keys.VALID_PUBLIC_KEY, 'other': keys.OTHER_VALID_PUBLIC_KE
 
 def run_iso(u, ctx):
     uh = USER_HOMES[u['i'] % 3]
-    kf = list(KEYFILES)[u['i'] // 3]
+    kf = list(KEYFILES)[(u['i'] // 3) % len(KEYFILES)]
+    proxy = u['i'] >= 3 * len(KEYFILES)
     rng = common.rng_for(ctx.seed, ID, 'iso', u['i'])
     signed = signer().clearsign('DATA f 0\n')
     with common.Scratch('vf-c05-') as d:
@@ -521,11 +529,13 @@ def run_iso(u, ctx):
             snap0 = user.snapshot()
             del _spawns[:]
             tmp_before = set(os.listdir(common.scratch_base()))
-            rc = cli(['verify', '-K', kpath, '-R', '-s', tree])
+            rc = cli(['verify', '-K', kpath, '-R'] +
+                     (['--proxy', 'http://127.0.0.1:9'] if proxy else []) +
+                     ['-s', tree])
             snap1 = user.snapshot()
             os.environ.pop('GNUPGHOME', None)
-            case = {'kind': 'iso', 'user_home': uh, 'keyfile': kf}
-            ctx.case(sig=('iso', uh, kf), case=case, klass='iso')
+            case = {'kind': 'iso', 'user_home': uh, 'keyfile': kf, 'proxy': proxy}
+            ctx.case(sig=('iso', uh, kf, proxy), case=case, klass='iso')
             ctx.count('iso:runs')
             expect_ok = kf in ('signer', 'both')
             if isinstance(rc, Exception):
@@ -741,6 +751,8 @@ def replay(case, ctx):
                               'accepted', case)
     elif k == 'iso':
         i = list(KEYFILES).index(case['keyfile']) * 3 + USER_HOMES.index(case['user_home'])
+        if case.get('proxy'):
+            i += 3 * len(KEYFILES)
         run_iso({'i': i}, ctx)
     elif k == 'cli':
         run_cli({'i': 0}, ctx)
